@@ -86,6 +86,13 @@ Theorem C13_package_frame : forall tb cf now s p k o, NoDup (map mk_id (s_market
   SimLinkP.pkey p <> k -> SimLinkP.at_key (s_markets s) k o -> SimLinkP.at_key (s_markets (exec_pkg tb cf now s p)) k o.
 Proof. exact SimFrameP.exec_pkg_frame. Qed.
 Print Assumptions C13_package_frame.
+(* ... so a WHOLE update of one market (its due packages, the middleware, the sweep, every strategy's requests) leaves the orders of every other
+   market exactly as they are, unless a request made at this update names them *)
+Theorem C13_update_frame_other_markets : forall tb cf n sc s e k o, NoDup (map mk_id (s_markets s)) -> fst k <> ev_market e ->
+  (forall st, In st (map Z.of_nat (seq 0 (Z.to_nat n))) -> Forall (fun a => SimFrameP.writes (ev_market e) a <> Some k) (sc st (ev_market e) (ev_idx e))) ->
+  SimLinkP.at_key (s_markets s) k o -> SimLinkP.at_key (s_markets (step tb cf n sc s e)) k o.
+Proof. exact SimFrameP.step_frame_other_market. Qed.
+Print Assumptions C13_update_frame_other_markets.
 (* ... and the completion sweep treats every order on its own *)
 Theorem C13_sweep_is_pointwise : forall cf now a b, completion_sweep cf now (a ++ b) = completion_sweep cf now a ++ completion_sweep cf now b.
 Proof. intros. apply map_app. Qed.
